@@ -13,12 +13,42 @@ TRANSPARENT = {
 }
 
 
+def pat_positions(p, prefix=""):
+    """[(local id, position string)] for bindings in a pattern; position like `GraphInline::Link.0` or `Reference.key`."""
+    out = []
+    if not isinstance(p, dict):
+        return out
+    k = p.get("k")
+    if k == "p_bind":
+        out.append((p["id"], prefix))
+        if "sub" in p:
+            out += pat_positions(p["sub"], prefix)
+    elif k == "p_tstruct":
+        v = fb.last2(fb.norm(p.get("def") or "?"))
+        for i, qp in enumerate(p.get("pats", [])):
+            out += pat_positions(qp, (prefix + ">" if prefix else "") + "%s.%d" % (v, i))
+    elif k == "p_struct":
+        v = fb.last2(fb.norm(p.get("def") or "?"))
+        for f in p.get("fields", []):
+            out += pat_positions(f["pat"], (prefix + ">" if prefix else "") + "%s.%s" % (v, f["name"]))
+    elif k in ("p_or", "p_slice"):
+        for qp in p.get("pats", []):
+            out += pat_positions(qp, prefix)
+    elif k == "p_tuple":
+        for i, qp in enumerate(p.get("pats", [])):
+            out += pat_positions(qp, (prefix + ">" if prefix else "") + "tuple.%d" % i)
+    elif k in ("p_ref", "p_guard"):
+        out += pat_positions(p.get("pat"), prefix)
+    return out
+
+
 class FnCtx:
     """Per-fn binding environment: local id -> where its value comes from."""
 
     def __init__(self, fn):
         self.fn = fn
         self.binds = {}
+        self.pos = {}
         self.parent_of = {}
         if fn.body is None:
             return
@@ -32,16 +62,22 @@ class FnCtx:
             if k in ("let", "letx") and node.get("init") is not None:
                 for name, lid in fb.pat_bindings(node["pat"]):
                     self.binds.setdefault(lid, ("expr", node["init"], node["pat"]))
+                for lid, pos in pat_positions(node["pat"]):
+                    self.pos.setdefault(lid, pos)
             elif k == "match":
                 for arm in node["arms"]:
                     for name, lid in fb.pat_bindings(arm["pat"]):
                         self.binds.setdefault(lid, ("expr", node["e"], arm["pat"]))
+                    for lid, pos in pat_positions(arm["pat"]):
+                        self.pos.setdefault(lid, pos)
             elif k in ("mcall", "call"):
                 src = node.get("recv")
                 for a in node.get("args", []):
                     if a.get("k") == "closure":
                         others = [x for x in node.get("args", []) if x is not a and x.get("k") != "closure"]
                         for p in a.get("params", []):
+                            for lid, pos in pat_positions(p):
+                                self.pos.setdefault(lid, pos)
                             for name, lid in fb.pat_bindings(p):
                                 if src is not None:
                                     self.binds.setdefault(lid, ("expr", src, p))
@@ -124,6 +160,8 @@ class FnCtx:
                         return out
                     seen.add(lid)
                     out |= self.vprov(b[1], seen, depth + 1)
+                    if self.pos.get(lid):
+                        out.add(("patpos", self.pos[lid]))
                     pat = b[2] if len(b) > 2 else None
                     if pat is not None:
                         for v in fb.pat_variants(pat):
